@@ -19,32 +19,41 @@ func ConvertLabelQuery(terms []*v1alpha1.LabelTerm) ([]resource.LabelQueryOption
 	labelOpts := make([]resource.LabelQueryOption, 0, len(terms))
 
 	for _, term := range terms {
-		var opts []resource.TermOption
-
-		if term.Invert {
-			opts = append(opts, resource.NotMatches)
+		labelTerm := resource.LabelTerm{
+			Key:    term.Key,
+			Value:  term.Value,
+			Invert: term.Invert,
 		}
 
 		switch term.Op {
 		case v1alpha1.LabelTerm_EQUAL:
-			labelOpts = append(labelOpts, resource.LabelEqual(term.Key, term.Value[0], opts...))
+			labelTerm.Op = resource.LabelOpEqual
 		case v1alpha1.LabelTerm_EXISTS:
-			labelOpts = append(labelOpts, resource.LabelExists(term.Key, opts...))
+			labelTerm.Op = resource.LabelOpExists
+			labelTerm.Value = nil
 		case v1alpha1.LabelTerm_NOT_EXISTS: //nolint:staticcheck
-			labelOpts = append(labelOpts, resource.LabelExists(term.Key, resource.NotMatches))
+			labelTerm.Op = resource.LabelOpExists
+			labelTerm.Value = nil
+			labelTerm.Invert = true
 		case v1alpha1.LabelTerm_IN:
-			labelOpts = append(labelOpts, resource.LabelIn(term.Key, term.Value, opts...))
+			labelTerm.Op = resource.LabelOpIn
 		case v1alpha1.LabelTerm_LT:
-			labelOpts = append(labelOpts, resource.LabelLT(term.Key, term.Value[0], opts...))
+			labelTerm.Op = resource.LabelOpLT
 		case v1alpha1.LabelTerm_LTE:
-			labelOpts = append(labelOpts, resource.LabelLTE(term.Key, term.Value[0], opts...))
+			labelTerm.Op = resource.LabelOpLTE
 		case v1alpha1.LabelTerm_LT_NUMERIC:
-			labelOpts = append(labelOpts, resource.LabelLTNumeric(term.Key, term.Value[0], opts...))
+			labelTerm.Op = resource.LabelOpLTNumeric
 		case v1alpha1.LabelTerm_LTE_NUMERIC:
-			labelOpts = append(labelOpts, resource.LabelLTENumeric(term.Key, term.Value[0], opts...))
+			labelTerm.Op = resource.LabelOpLTENumeric
 		default:
 			return nil, status.Errorf(codes.Unimplemented, "unsupported label query operator: %v", term.Op)
 		}
+
+		// pass the term as it was sent (the client sends the term values verbatim), so that
+		// the term (even without values) is evaluated exactly as it would be evaluated locally
+		labelOpts = append(labelOpts, func(q *resource.LabelQuery) {
+			q.Terms = append(q.Terms, labelTerm)
+		})
 	}
 
 	return labelOpts, nil
